@@ -309,7 +309,7 @@ def main(argv):
     try:
         # machine-wide memory budget shared by every ./check process (several may run at once): a flock-protected ledger
         import fcntl
-        LEDGER = os.environ.get('VERIF_MEM_LEDGER', '/tmp/verif_mem_ledger.json'); TOTAL = float(os.environ.get('VERIF_MEM_GB', '56'))
+        LEDGER = os.environ.get('VERIF_MEM_LEDGER', '/tmp/verif_mem_ledger.json'); TOTAL = float(os.environ.get('VERIF_MEM_GB', '90'))
         def ledger(update):
             with open(LEDGER, 'a+') as f:
                 fcntl.flock(f, fcntl.LOCK_EX)
